@@ -47,14 +47,52 @@ def _world(r):
         names = {}
         for nm in r.sample(['a', 'b', 'c', 'x', 'y', 'z'], r.randint(0, 4)):
             names[nm] = gen.host_value_spec(r, 2, floats=False)
+        if r.random() < 0.3:
+            # a host value bound under the name of a builtin (host bindings override builtins - for this mapping only)
+            names[r.choice(['len', 'max', 'str', 'sum', 'lower', 'sorted', 'list'])] = r.choice([7, 'host-value', [1]])
         spaces.append(names)
-    return {'spaces': spaces, 'host_fns': ['t', 're']}
+    w = {'spaces': spaces, 'host_fns': ['t', 're']}
+    if r.random() < 0.3:
+        w['cache'] = r.choice([{'kind': 'dict'}, {'kind': 'lru', 'bound': 3}])
+    return w
 
 
 def _valid_prog(r, env, arity):
     g = ProgGen(r, env, max_depth=r.choice([1, 2, 3]), fn_arity=arity, illtyped=0.05)
     prog = g.program(n_stmts=r.choice([1, 1, 2, 3, 4]))
     return prog
+
+
+TABLE = ('len int float str list dict startswith endswith lower upper strip replace match match_groups match_all pretty keys '
+         'values items sum get map filter reduce join split round floor ceil abs min max rand push pop insert remove sorted '
+         'reversed enumerate shuffle index_of').split()
+
+
+def _exerciser_prog(r, names):
+    from .. import exerciser
+    t = None
+    for d in range(r.choice([1, 2, 2, 3])):
+        nm = r.choice(TABLE)
+        args = exerciser.known_args(r, nm) if nm in exerciser.KNOWN_SHAPES and r.random() < 0.8 else exerciser.shapes(r, (), (), no_functions=nm in exerciser.KEYED)
+        # the exerciser's host names are not bound here: spell them as literals
+        args = [_lit(r, a) for a in args]
+        if t is not None:
+            args = [t] + args[1:] if args else [t]
+        t = ['call', nm, args, gen.sugar(r, len(args))]
+    return ['block', [t]]
+
+
+LITS = {'L': ['list', [['num', '3'], ['num', '1'], ['num', '2']]], 'LS': ['list', [['str', 'b'], ['str', 'a']]], 'NL': ['list', [['list', [['num', '2']]], ['list', []]]],
+        'D': ['dict', [[['str', 'b'], ['num', '2']], [['str', 'a'], ['num', '1']]]], 'ND': ['dict', [[['str', 'x'], ['list', [['num', '1']]]]]],
+        'S': ['str', 'a1 b22 c'], 'N': ['num', '2.5'], 'I': ['num', '7'], 'E': ['list', []], 'HL': ['list', [['list', [['num', '1']]], ['str', 'x']]]}
+
+
+def _lit(r, a):
+    if isinstance(a, list) and a and a[0] == 'name':
+        return LITS.get(a[1], ['str', 'hello'] if a[1].startswith('%') else a)
+    if isinstance(a, list):
+        return [_lit(r, x) if isinstance(x, list) else x for x in a]
+    return a
 
 
 def generate(seed, tier):
@@ -70,8 +108,14 @@ def generate(seed, tier):
         m = models[si]
         env = {k: type_of(v) for k, v in m.host.items()}
         arity = {k: len(v.params) for k, v in m.host.items() if getattr(v, '_sim_kind', '') == 'lambda'}
-        if pool and ro.random() < 0.25:
+        if pool and ro.random() < 0.3:
             src_prog, src = ro.choice(pool)
+        elif ro.random() < 0.3:
+            # any entry of the builtin table (regex, random, pretty ... included), results piped into further builtins,
+            # mutators among them: whatever a call leaves behind in process-wide state must not reach a later call
+            src_prog = _exerciser_prog(ro, sorted(env))
+            src = lang.render(src_prog, gen.style(S['render']))
+            pool.append((src_prog, src))
         else:
             src_prog = _valid_prog(ro, env, arity)
             src = lang.render(src_prog, gen.style(S['render']))
@@ -117,7 +161,7 @@ class Universe:
             names = {k: lang.dec_value(v) for k, v in sp.items()}
             names.update(self.host.fns(['t']))
             self.spaces.append(names)
-        self.parser = None if twin else boot.fresh_parser()
+        self.parser = None if twin else boot.fresh_parser(seams.make_cache(cfg.get('cache')))
         self.suspended = []
 
     def parser_for_call(self):
